@@ -431,6 +431,77 @@ pub fn forwarders_contract(s: &mut dyn Src, r: &mut Report) {
    }
 }
 
+// ---- conformance of the ASSUMED contracts (trusted base of the Verus index / set units) with the real dependencies ----
+/// Small-input cross-check, not a proof: hashbrown (with the real FxHasher) behaves as the std HashMap model on the
+/// operations the index unit uses; HashMap::drain / Entry::or_default / HashSet::extend / iter::once and
+/// BTreeSet::{into_iter, is_subset, is_superset, ==} satisfy the contracts assumed for them.
+pub fn trusted_base_conformance<const N: usize>(s: &mut dyn Src, r: &mut Report) {
+   use std::collections::{BTreeSet, HashMap, HashSet};
+   let ps = pairs::<N>(s);
+   let qs = pairs::<N>(s);
+   // hashbrown vs std model
+   let mut hb = RelFullIndexType::<u8, u8>::default();
+   let mut sm: HashMap<u8, u8> = HashMap::new();
+   let mut ok = true;
+   for &(k, v) in &ps {
+      if hb.contains_key(&k) != sm.contains_key(&k) || hb.get(&k) != sm.get(&k) || hb.len() != sm.len() || hb.is_empty() != sm.is_empty() {
+         ok = false;
+      }
+      match hb.raw_entry_mut().from_key(&k) {
+         ascent::hashbrown::hash_map::RawEntryMut::Occupied(_) => {
+            if !sm.contains_key(&k) { ok = false; }
+            hb.insert(k, v);
+            sm.insert(k, v);
+         },
+         ascent::hashbrown::hash_map::RawEntryMut::Vacant(vac) => {
+            if sm.contains_key(&k) { ok = false; }
+            vac.insert(k, v);
+            sm.insert(k, v);
+         },
+      }
+   }
+   hb.reserve(3);
+   let mut d1: Vec<(u8, u8)> = hb.drain().collect();
+   let mut d2: Vec<(u8, u8)> = sm.drain().collect();
+   d1.sort();
+   d2.sort();
+   chk!(r, "assumed_hashbrown_behaves_as_std_hashmap_model", ok && d1 == d2 && hb.is_empty() && sm.is_empty());
+   // HashMap::drain: every entry exactly once, map empty afterwards
+   let (mut t1, m1) = build_t1(&ps);
+   let mut drained: Vec<(u8, Vec<u8>)> = t1.drain().map(|(k, v)| (k, sorted(v))).collect();
+   drained.sort();
+   let want: Vec<(u8, Vec<u8>)> = m1.iter().map(|(k, v)| (*k, sorted(v.clone()))).collect();
+   chk!(r, "assumed_hashmap_drain_yields_every_entry_once_and_empties", drained == want && t1.is_empty());
+   // Entry::or_default == or_insert(Default::default())
+   let mut a: HashMap<u8, Vec<u8>> = HashMap::new();
+   let mut b: HashMap<u8, Vec<u8>> = HashMap::new();
+   for &(k, v) in &ps {
+      a.entry(k).or_default().push(v);
+      b.entry(k).or_insert(Vec::new()).push(v);
+   }
+   chk!(r, "assumed_entry_or_default_is_or_insert_default", a == b);
+   // HashSet::default is empty; extend is union
+   let mut hs: HashSet<u8> = HashSet::default();
+   let was_empty = hs.is_empty();
+   let left: HashSet<u8> = ps.iter().map(|p| p.1).collect();
+   let right: HashSet<u8> = qs.iter().map(|p| p.1).collect();
+   hs.extend(left.clone());
+   hs.extend(right.clone());
+   chk!(r, "assumed_hashset_default_empty_and_extend_is_union", was_empty && hs == left.union(&right).cloned().collect());
+   chk!(r, "assumed_iter_once_yields_its_argument_once", std::iter::once(7u8).collect::<Vec<_>>() == vec![7u8]);
+   // BTreeSet assumed contracts of the set unit
+   let x: BTreeSet<u8> = ps.iter().map(|p| p.1).collect();
+   let y: BTreeSet<u8> = qs.iter().map(|p| p.1).collect();
+   let sub = x.iter().all(|e| y.contains(e));
+   let sup = y.iter().all(|e| x.contains(e));
+   let items: Vec<u8> = x.clone().into_iter().collect();
+   let mut dedup = items.clone();
+   dedup.sort();
+   dedup.dedup();
+   chk!(r, "assumed_btreeset_subset_superset_eq_into_iter", x.is_subset(&y) == sub && x.is_superset(&y) == sup && (x == y) == (sub && sup)
+      && dedup.len() == items.len() && items.len() == x.len() && items.iter().all(|e| x.contains(e)));
+}
+
 pub type Runner = fn(&mut dyn Src, &mut Report);
 
 macro_rules! registry {
@@ -474,5 +545,6 @@ native {
    noindex_ops_le3 => |s, r| { noindex_ops::<3>(s, r) },
    combined_view_native => |s, r| { combined_contract(s, r) },
    forwarders_native => |s, r| { forwarders_contract(s, r) },
+   trusted_base_conformance_le3 => |s, r| { trusted_base_conformance::<3>(s, r) },
 }
 }
